@@ -41,10 +41,12 @@ class Family:
 
 COND_TEMPLATE = '''\
 import {module} as _h
+import engine.rt as _rt
 def cond({sig}) -> bool:
     """
 {pre}    post: _
     """
+    _rt.begin_path()
     return _h.{body}({call})
 '''
 
